@@ -103,6 +103,8 @@ class DriverListener:
     def on_nullderef(self, I, st, node, val):
         fn = self.cur(I)
         log(st, 'NULLDEREF', nloc(node), fn['q'] if fn else '?', show(val))
+        # the path may end here (a call through a null pointer has nothing to run on): remembered per operation as well
+        self.D.nullderefs.append((getattr(self.D, 'current_op', None), nloc(node), fn['q'] if fn else '?', show(val), tuple(str(x) for x in st.trace[-6:])))
 
     def on_new(self, I, st, node, obj, count, at):
         if count is not None:
@@ -141,6 +143,7 @@ class Driver:
         if not self.tmax:
             raise AnalysisBroken('THREAD_MAX not found')
         self.results = {}       # (op, T) -> list of (state, retval)
+        self.nullderefs = []
         self.interps = []
 
     # ---- models used only at driver level
